@@ -226,6 +226,8 @@ def main(tier):
         n2, nf = rows_for(chk, FAULT_U, "faults", inject=True)
         if tier == "thorough":
             rows_for(chk, THOROUGH_U, "thorough-faults", inject=True)
+            from . import suite
+            suite.validate_suite(chk, "C04")      # every failed check of the repository's own tests: post == pre
         if nf == 0:
             raise MachineryFailure("no injected fault was ever raised: nothing observed")
         # PyTree half
